@@ -328,37 +328,68 @@ def extract_movopt(tree, ops, found):
 
 
 # ------------------------------------------------------------------------------------------------ call-site selection
-def extract_selection(tree, found):
-    """compile.c janetc_call: when the specialisation is applied; specials.c: the nil fast paths of if / while"""
-    src = csrc.strip_comments(csrc.read(tree, "src/core/compile.c"))
+def selection_block(src):
+    """text of the block of janetc_call that decides whether a call is specialised: from the declaration of its flag variable
+    (`int <flag> = 0;`, the last such declaration before the first use of janetc_funopt) to the `if (!<flag>)` that starts the generic route"""
     b = csrc.func_body(src, "janetc_call")
-    i = b.find("int specialized = 0;")
-    j = b.find("if (!specialized)")
-    if i < 0 or j < 0:
+    k = b.find("janetc_funopt")
+    decls = [m for m in re.finditer(r"\bint (\w+) = 0;", b) if m.start() < k] if k >= 0 else []
+    if not decls:
         raise ExtractError("janetc_call: selection block not found")
-    sel = norm(b[i:j])
-    check_fp("compile.c:janetc_call.selection", sel, found)
-    want = ("if (fun.flags & JANET_SLOT_CONSTANT && !has_spliced(slots)) { if (janet_checktype(fun.constant, JANET_FUNCTION)) { "
-            "JanetFunction *f = janet_unwrap_function(fun.constant); const JanetFunOptimizer *o = janetc_funopt(f->def->flags); "
-            "if (o && (!o->can_optimize || o->can_optimize(opts, slots))) { specialized = 1;")
-    if want not in sel:
-        raise ExtractError("janetc_call: specialisation is no longer selected by (constant function head, no splice, tagged, arity guard)")
+    m = decls[-1]
+    j = b.find("if (!%s)" % m.group(1), m.end())
+    if j < 0:
+        raise ExtractError("janetc_call: selection block not found")
+    return b[m.start():j]
+
+
+def extract_selection(tree, found):
+    """compile.c janetc_call: when the specialisation is applied (the block's canonical skeleton is compared in Lean:
+    Props.C15.skeleton_janetc_call_selection_ok); specials.c: the nil fast paths of if / while, read from the canonical skeletons of
+    janetc_if / janetc_while (independent of the names of their locals)"""
+    src = csrc.strip_comments(csrc.read(tree, "src/core/compile.c"))
+    check_fp("compile.c:janetc_call.selection", norm(selection_block(src)), found)
     sp = csrc.strip_comments(csrc.read(tree, "src/core/specials.c"))
     check_fp("specials.c:janetc_check_nil_form", csrc.func_body(sp, "janetc_check_nil_form"), found)
+    ops = dict(gbc.extract(tree)[0])
     paths = {}
-    ib = norm(csrc.func_body(sp, "janetc_if"))
-    for m in re.finditer(r"janetc_check_nil_form\(condform, &condform, JANET_FUN_(\w+)\)\) \{ ifnjmp = (JOP_\w+); \}", ib):
-        paths[("if", m.group(1))] = m.group(2)
-    wb = norm(csrc.func_body(sp, "janetc_while"))
-    for m in re.finditer(r"janetc_check_nil_form\(condform, &condform, JANET_FUN_(\w+)\)\) \{ is_\w+ = 1; ifjmp = (JOP_\w+); ifnjmp = (JOP_\w+); \}", wb):
-        paths[("while", m.group(1))] = m.group(3)
+
+    def nil_lets(sk, k):
+        """the `let $v = JOP_X` lines directly inside the `if janetc_check_nil_form(..)` at line k -> {var: opcode}"""
+        out, d = {}, sk[k][0]
+        for dd, kind, op, text in sk[k + 1:]:
+            if dd <= d:
+                break
+            m = re.match(r"^(\$\d+) = (JOP_\w+)$", text) if (kind == "let" and dd == d + 1) else None
+            if m:
+                out[m.group(1)] = m.group(2)
+        return out
+
+    for form, fname in (("if", "janetc_if"), ("while", "janetc_while")):
+        sk = cfuns_skel.skeleton(sp, fname, ops)
+        # the variable holding the opcode of the jump that LEAVES the then-branch / the loop is the one initialised to JOP_JUMP_IF_NOT
+        leave = [re.match(r"^(\$\d+) = JOP_JUMP_IF_NOT$", text).group(1) for d, kind, op, text in sk
+                 if kind == "let" and d == 0 and re.match(r"^(\$\d+) = JOP_JUMP_IF_NOT$", text)]
+        if len(leave) != 1:
+            raise ExtractError("%s: the jump that leaves on a false condition is not initialised to JOP_JUMP_IF_NOT exactly once" % fname)
+        for k, (d, kind, op, text) in enumerate(sk):
+            m = re.match(r"^janetc_check_nil_form\((\$\d+), &\1, JANET_FUN_(\w+)\)$", text) if kind == "if" else None
+            if m:
+                lets = nil_lets(sk, k)
+                if leave[0] not in lets:
+                    raise ExtractError("%s: nil fast path %s does not set the leaving jump" % (fname, m.group(2)))
+                paths[(form, m.group(2))] = lets[leave[0]]
+        if form == "if":
+            v = re.escape(leave[0])
+            want = [r"^%s == JOP_JUMP_IF_NOT && !janet_truthy\((\$\d+)\.constant\)$" % v,
+                    r"^%s == JOP_JUMP_IF_NIL && janet_checktype\((\$\d+)\.constant, JANET_NIL\)$" % v,
+                    r"^%s == JOP_JUMP_IF_NOT_NIL && !janet_checktype\((\$\d+)\.constant, JANET_NIL\)$" % v]
+            ifs = [text for d, kind, op, text in sk if kind == "if"]
+            pos = [next((n for n, t in enumerate(ifs) if re.match(w, t)), None) for w in want]
+            if None in pos or pos != sorted(pos):
+                raise ExtractError("janetc_if: constant-condition polarity test not of the expected shape")
     if len(paths) != 4:
         raise ExtractError("nil fast paths of if / while not recognised (found %s)" % sorted(paths))
-    m = re.search(r"if \(ifnjmp == JOP_JUMP_IF_NOT && !janet_truthy\(cond.constant\)\) swap_condition = 1; "
-                  r"if \(ifnjmp == JOP_JUMP_IF_NIL && janet_checktype\(cond.constant, JANET_NIL\)\) swap_condition = 1; "
-                  r"if \(ifnjmp == JOP_JUMP_IF_NOT_NIL && !janet_checktype\(cond.constant, JANET_NIL\)\) swap_condition = 1;", ib)
-    if not m:
-        raise ExtractError("janetc_if: constant-condition polarity test not of the expected shape")
     return paths
 
 
@@ -434,7 +465,7 @@ def extract_callsite(tree, found):
     cb = norm(csrc.func_body(src, "janetc_call"))
     mg = re.search(r"!\(c->scope->flags & JANET_SCOPE_TOP\)\) \{ janetc_emit_s\(c, (JOP_\w+), fun, 0\); .*? \} else \{ retslot = janetc_gettarget\(opts\); "
                    r"janetc_emit_ss\(c, (JOP_\w+), retslot, fun, 1\); \}", cb)
-    if not mg or "if (!specialized) { int32_t min_arity = janetc_pushslots(c, slots);" not in cb:
+    if not mg or not re.search(r"if \(!\w+\) \{ int32_t \w+ = janetc_pushslots\(c, slots\);", cb):
         raise ExtractError("janetc_call: generic route (pushslots, then tail call / call of `fun`) not of the expected shape")
     return branches, (mg.group(1), mg.group(2))
 
@@ -498,13 +529,8 @@ def extract_skeletons(tree, ops, rows):
         for n in names:
             out.append((n, cfuns_skel.skeleton(src, n, ops)))
     src = csrc.strip_comments(csrc.read(tree, "src/core/compile.c"))
-    b = csrc.func_body(src, "janetc_call")
-    i = b.find("int specialized = 0;")
-    j = b.find("if (!specialized)")
-    if i < 0 or j < 0:
-        raise ExtractError("janetc_call: selection block not found")
     params, _ = cfuns_skel.func_def(src, "janetc_call")
-    out.append(("janetc_call.selection", cfuns_skel.skeleton_of_text(b[i:j], "janetc_call.selection", ops, params)))
+    out.append(("janetc_call.selection", cfuns_skel.skeleton_of_text(selection_block(src), "janetc_call.selection", ops, params)))
     return out
 
 
